@@ -9,7 +9,9 @@ backend := `mem` (memory.Storage) | `red` (redis.Storage over miniredis) | `hyr`
            `byt` (double answering []byte)
 ev    := `o:<conn>` open | `h:<conn>` control handshake, auth ok | `f:<conn>` control handshake, auth refused |
          `u:<conn>` tunnel-type handshake, auth ok | `v:<conn>` tunnel-type handshake, auth refused |
-         `b:<conn>` heartbeat | `t:<ms>` clock advance |
+         `b:<conn>` heartbeat | `t:<ms>` clock advance (FastForward on the redis-backed stores, a real sleep on the others) |
+         `w:<ms>` clock advance in wall time on every backend (real sleep, plus FastForward on the redis-backed stores:
+         the records' ExpiresAt is read off the wall clock) |
          the connection ends: `c:<conn>` CloseConnection called directly | `e:<conn>` adapter read loop ended
          (BaseAdapter.cleanupConnection) | `d:<conn>` Disconnect command | `s:<conn>` heartbeat-timeout sweep |
          `k:<conn>` KickOldControlConnection(client, conn) (duplicate-login eviction of the node's other connection) |
@@ -63,6 +65,7 @@ def parseEv (tok : String) : Option Ev :=
     | [j, x] => do let j ← j.toNat?; let x ← x.toNat?; pure (.lookEnd j x)
     | _ => none
   | ["t", d] => d.toNat?.map .tick
+  | ["w", d] => d.toNat?.map .tick
   | _ => none
 
 def kv (key tok : String) : Option String :=
